@@ -708,22 +708,35 @@ func fuzzCorpus(out, label string, dirs []string) {
 	}
 }
 
-// byteSrc is a math/rand source that reads a fuzzer's byte string (zeros once it is used up): every generator that
-// draws from a *rand.Rand can be steered by the coverage-guided fuzzer and still only produces well-formed inputs.
+// byteSrc is a math/rand source that reads a fuzzer's byte string; once the string is used up it continues as a
+// small deterministic generator seeded by the string (constant output would make rejection loops in the generators
+// spin). Every generator that draws from a *rand.Rand can thus be steered by the coverage-guided fuzzer and still
+// only produces well-formed inputs.
 type byteSrc struct {
-	b []byte
-	i int
+	b    []byte
+	i    int
+	x    uint64
+	init bool
 }
 
 func (s *byteSrc) Seed(int64) {}
 func (s *byteSrc) Int63() int64 {
-	var v uint64
-	for k := 0; k < 8; k++ {
-		v <<= 8
-		if s.i < len(s.b) {
-			v |= uint64(s.b[s.i])
+	if s.i+8 <= len(s.b) {
+		var v uint64
+		for k := 0; k < 8; k++ {
+			v = v<<8 | uint64(s.b[s.i])
 			s.i++
 		}
+		return int64(v >> 1)
 	}
-	return int64(v >> 1)
+	if !s.init {
+		s.x, s.init = 0x9e3779b97f4a7c15, true
+		for _, c := range s.b {
+			s.x = (s.x ^ uint64(c)) * 0x100000001b3
+		}
+	}
+	s.x ^= s.x << 13
+	s.x ^= s.x >> 7
+	s.x ^= s.x << 17
+	return int64(s.x >> 1)
 }
